@@ -402,6 +402,11 @@ def correspond(ctx):
         for f in fails:
             corr.failures.append({"stream": "oracle-" + case["shape"], "case": {k: v for k, v in case.items() if k != "stream"},
                                   "what": f["what"], "observed": f["observed"]})
+        # thorough tier: every molecule goes through the oracle; the (much slower) exact model is run on the corpus and on
+        # every second random molecule
+        if ctx.thorough and case["stream"] != "corpus" and (corr.streams.get(case["stream"], 0) % 2 == 0):
+            corr.hit("oracle_only")
+            continue
         for chk, term in trm.items():
             buckets[chk].append((term, case))
     corr.sample({"case": cases[1]})
@@ -410,8 +415,9 @@ def correspond(ctx):
 
     def run(chk):
         items = buckets[chk]
-        return chk, coqrun.eval_bad_indices("C16-" + chk, REQ, "", chk, [t for t, _ in items], shard=max(10, len(items) // 16 + 1),
-                                            ty=CHK_TY[chk])
+        # small shards and a generous timeout: a shard that times out on a busy machine would be reported as a machinery error
+        return chk, coqrun.eval_bad_indices("C16-" + chk, REQ, "", chk, [t for t, _ in items],
+                                            shard=max(10, min(120, len(items) // 16 + 1)), timeout=3000, ty=CHK_TY[chk])
     todo = [c for c, items in buckets.items() if items]
     with ThreadPoolExecutor(max_workers=len(todo) or 1) as ex:
         results = list(ex.map(run, todo))
@@ -464,16 +470,21 @@ TECHNIQUE = ("Coq proofs (ring/field over an abstract field + induction over the
              "differential correspondence + property oracle")
 DESIGN_REF = "DESIGN.md §6 C16"
 LEVEL_TEXT = (
-    "Machine-checked (Coq 8.16.1) for every number of atoms and every mass assignment, over any field, with np.linalg.eigh as a "
-    "parameter constrained only by its specification on the one tensor it is applied to: C16_isometry (the new geometry is one map "
-    "applied to all positions that preserves |p-q|^2 for all points), C16_com_at_origin, C16_inertia_transforms (I(xV) = V^T I(x) V for "
-    "the tensor generated from Molecule._inertial_tensor), C16_inertia_diagonal_ascending, C16_masses_untouched; over the reals "
-    "C16_phase_convention(_orient): on each axis the first atom with |coordinate| >= 1e-8 is positive. Each run feeds numpy's own eigh "
-    "answer to the model, checks the eigh specification on it numerically, and compares the model's geometry with "
-    "_orient_molecule_internal; the oracle checks all claims on the implementation incl. frame uniqueness and orient-twice for "
-    "asymmetric tops and the three construction routes.")
+    "Machine-checked (Coq 8.16.1) for every number of atoms and every mass assignment, with np.linalg.eigh as a parameter constrained "
+    "only by its specification on the tensor(s) it is applied to. Over any field: C16_isometry (the new geometry is one map applied to "
+    "all positions that preserves |p-q|^2 for all points), C16_com_at_origin, C16_inertia_transforms (I(xV) = V^T I(x) V for the tensor "
+    "generated from Molecule._inertial_tensor), C16_inertia_diagonal_ascending, C16_masses_untouched. Over the reals: "
+    "C16_phase_convention(_orient) (on each axis the first atom with |coordinate| >= 1e-8 is positive), C16_frame_unique (distinct "
+    "moments: a copy moved by any orthogonal matrix and translation orients to the same coordinates; on each axis the columns are equal, "
+    "or all entries are below 1e-8 and the columns are opposite) and C16_orient_idempotent (orienting twice, same sense), both for "
+    "arbitrary eigh answers meeting the specification. Each run feeds numpy's own eigh answer to the model, checks the eigh "
+    "specification on it numerically, compares the model's geometry with _orient_molecule_internal, and evaluates every claim on the "
+    "implementation (incl. uniqueness / orient-twice for asymmetric tops and the three construction routes).")
 LEVEL_NOTE = (
-    "Trusted: Coq kernel + vm_compute; the tensor translator; the hand model of centring/rotation/phase loop (tied by correspondence); "
-    "LAPACK eigh (specified, its answer checked numerically each run); numpy arithmetic and the 8-decimal rounding (tolerances). "
-    "Non-geometric fields do not occur in the model (the code passes them through unchanged); the oracle compares every field of "
-    "Molecule.dict(). Phase theorems depend on the Reals axioms; the others are closed.")
+    "Trusted: Coq kernel + vm_compute; the tensor translator; the hand model of centring/rotation/phase loop (tied by correspondence; the "
+    "in-place column flips are modelled as signs applied after the scan); LAPACK eigh (specified, its answer checked numerically each "
+    "run); numpy arithmetic and the 8-decimal rounding (tolerances; uniqueness/idempotence on the implementation only up to the rounding "
+    "amplified by the eigenvector conditioning). Non-geometric fields do not occur in the model (the code passes them through unchanged); "
+    "the oracle compares every field of Molecule.dict(). Real-number theorems depend on the Reals axioms; the others are closed. "
+    "Observation (not part of the property): the map applied is orthogonal but not necessarily proper - orientation sends a molecule and "
+    "its mirror image to the same coordinates (C16_frame_unique holds for improper Rm), i.e. it can invert chirality.")
